@@ -1179,3 +1179,326 @@ theorem getS_of_getL (root : XVal) (path : List Str) (v : XVal) (hg : goodVS roo
     (h : getL root path = .ok (some v)) : getS root (join ['/'] path) = .ok (some v) := by
   rw [getS_join root path (getL_ok_steps root path v hg h)]
   exact h
+
+/-! ### the grammar of the property's expressions: render and parse
+
+A token is `..` (`none`) or a step `tag [idx] [text() op v]` (the `Step` the regex groups give).
+`renderTok` writes it the way the test-suite does (`a`, `*[1]`, `**[*]`, `b[text()=x]`,
+`c[2][text()!=none]`); `parseTok` is the reading `recurse` applies to one path part (`'..'` test,
+then the step parser that stands for the regex). -/
+
+abbrev Tok := Option Step
+
+def opEq : Str := ['=']
+def opNe : Str := ['!', '=']
+
+def WfTag (t : Str) : Prop := t = star ∨ t = star2 ∨ (t ≠ [] ∧ ∀ c ∈ t, isWord c = true)
+
+/-- a condition the grammar can write: operator `=` or `!=`; the value is not empty, has no quote
+and no `/` (the path split would cut it), and does not begin with `=` after the operator `=`
+(`[text()==x]` reads as operator `==`) -/
+def WfCond : Option (Str × Str) → Prop
+  | none => True
+  | some (op, v) => (op = opEq ∨ op = opNe) ∧ v ≠ [] ∧ (∀ c ∈ v, isQuote c = false ∧ c ≠ '/') ∧
+      (op = opEq → v.head? ≠ some '=')
+
+def WfStep (st : Step) : Prop := WfTag st.tag ∧ WfCond st.cond
+
+def WfTok : Tok → Prop
+  | none => True
+  | some st => WfStep st
+
+def renderIdx : Option (Option Nat) → Str
+  | none => []
+  | some none => ['[', '*', ']']
+  | some (some k) => '[' :: (dec k ++ [']'])
+
+def renderCond : Option (Str × Str) → Str
+  | none => []
+  | some (op, v) => ['[', 't', 'e', 'x', 't', '(', ')'] ++ op ++ v ++ [']']
+
+def renderStepE (st : Step) : Str := st.tag ++ (renderIdx st.idx ++ renderCond st.cond)
+
+def renderTok : Tok → Str
+  | none => dotdot
+  | some st => renderStepE st
+
+def renderExpr (e : List Tok) : Str := join ['/'] (e.map renderTok)
+
+/-- how `recurse` reads one path part -/
+def parseTok (s : Str) : Option Tok := if s = dotdot then some none else (parseStep s).map some
+
+/-- how `findall` reads an expression string: normalisation, path split, every part read by `parseTok` -/
+def parseExpr (xp : Str) : Option (List Tok) := (xpSteps xp).mapM parseTok
+
+theorem natOfDigits_dec (k : Nat) : natOfDigits (dec k) = k := dec_value k
+
+theorem dec_digits (k : Nat) : ∀ c ∈ dec k, isAsciiDigit c = true := by
+  intro c hc
+  obtain ⟨n, hn⟩ := (dec_isDigits k).2 c hc
+  rw [hn]; exact (digitChar_spec n).1
+
+theorem takeWhile_all {α} (p : α → Bool) (a : List α) (h : ∀ c ∈ a, p c = true) :
+    a.takeWhile p = a ∧ a.dropWhile p = [] := by
+  induction a with
+  | nil => simp
+  | cons c a ih =>
+    have hc := h c (by simp)
+    have := ih (fun y hy => h y (by simp [hy]))
+    simp [hc, this.1, this.2]
+
+theorem lastBr_close (v : Str) : ∀ (acc : Str) (best : Option Str), (acc ≠ [] ∨ v ≠ []) →
+    lastBr acc best (v ++ [']']) = some (acc.reverse ++ v) := by
+  induction v with
+  | nil =>
+    intro acc best h
+    have ha : acc ≠ [] := by rcases h with h | h; exact h; exact absurd rfl h
+    cases acc with
+    | nil => exact absurd rfl ha
+    | cons a acc => simp [lastBr]
+  | cons c v ih =>
+    intro acc best _
+    rw [List.cons_append, lastBr, ih (c :: acc) _ (Or.inl (by simp))]
+    simp
+
+theorem condTail_value (v : Str) (hne : v ≠ []) (hq : ∀ c ∈ v, isQuote c = false) :
+    condTail (v ++ [']']) = some v := by
+  cases v with
+  | nil => exact absurd rfl hne
+  | cons c v =>
+    have hc : isQuote c = false := hq c (by simp)
+    have hall : ∀ x ∈ (c :: v) ++ [']'], (fun c => !isQuote c) x = true := by
+      intro x hx
+      rcases List.mem_append.1 hx with h | h
+      · simp [hq x h]
+      · simp at h; subst h; decide
+    have htw := takeWhile_all (fun c => !isQuote c) ((c :: v) ++ [']']) hall
+    unfold condTail
+    simp only [List.cons_append, hc, Bool.false_eq_true, if_false]
+    simp only [List.cons_append] at htw
+    rw [htw.1, htw.2]
+    have := lastBr_close (c :: v) [] none (Or.inr (by simp))
+    simpa using this
+
+theorem parseCond_render (c : Option (Str × Str)) (h : WfCond c) : parseCond (renderCond c) = c := by
+  cases c with
+  | none => simp [renderCond, parseCond]
+  | some ov =>
+    obtain ⟨op, v⟩ := ov
+    obtain ⟨hop, hne, hv, hhead⟩ := h
+    have hct := condTail_value v hne (fun c hc => (hv c hc).1)
+    rcases hop with hop | hop
+    · subst hop
+      cases v with
+      | nil => exact absurd rfl hne
+      | cons c v =>
+        have hc : c ≠ '=' := by simpa using hhead rfl
+        simp only [List.cons_append] at hct
+        simp [renderCond, opEq, parseCond, hc, hct]
+    · subst hop
+      simp [renderCond, opNe, parseCond, hct]
+
+/-- what may follow the tag / the index inside a step: nothing, or a `[` -/
+def RestOK (rest : Str) : Prop := rest = [] ∨ ∃ r, rest = '[' :: r
+
+theorem renderCond_rest (c : Option (Str × Str)) : RestOK (renderCond c) := by
+  cases c with
+  | none => exact Or.inl rfl
+  | some ov => exact Or.inr ⟨_, rfl⟩
+
+theorem renderIdxCond_rest (i : Option (Option Nat)) (c : Option (Str × Str)) :
+    RestOK (renderIdx i ++ renderCond c) := by
+  cases i with
+  | none => simpa [renderIdx] using renderCond_rest c
+  | some j => cases j <;> exact Or.inr ⟨_, rfl⟩
+
+theorem parseIdx_render (i : Option (Option Nat)) (c : Option (Str × Str)) :
+    parseIdx (renderIdx i ++ renderCond c) = (i, renderCond c) := by
+  cases i with
+  | none =>
+    cases c with
+    | none => simp [renderIdx, renderCond, parseIdx]
+    | some ov => simp [renderIdx, renderCond, parseIdx, isAsciiDigit]
+  | some j =>
+    cases j with
+    | none => simp [renderIdx, parseIdx]
+    | some k =>
+      have hsplit := takeWhile_append_stop isAsciiDigit (dec k) ']' (renderCond c) (dec_digits k) (by decide)
+      have hne := (dec_isDigits k).1
+      cases hd : dec k with
+      | nil => exact absurd hd hne
+      | cons d ds =>
+        have hdd : isAsciiDigit d = true := dec_digits k d (by rw [hd]; simp)
+        have hstar : d ≠ '*' := by intro e; subst e; revert hdd; decide
+        rw [hd] at hsplit
+        simp only [List.cons_append] at hsplit
+        simp only [renderIdx, hd, List.cons_append, List.append_assoc]
+        rw [parseIdx]
+        · simp only [List.nil_append, hsplit.1, hsplit.2]
+          rw [← hd, natOfDigits_dec]
+        · intro r he
+          simp at he
+          exact absurd he.1 hstar
+
+theorem parseTag_render (tag rest : Str) (h : WfTag tag) (hr : RestOK rest) :
+    parseTag (tag ++ rest) = some (tag, rest) := by
+  have hnw : isWord '[' = false := by decide
+  have hns : isWord '*' = false := by decide
+  rcases h with h | h | ⟨hne, hw⟩
+  · subst h
+    rcases hr with hr | ⟨r, hr⟩ <;> subst hr <;> simp [star, parseTag, hns]
+  · subst h
+    rcases hr with hr | ⟨r, hr⟩ <;> subst hr <;> simp [star2, parseTag, hns]
+  · have hsplit : (tag ++ rest).takeWhile isWord = tag ∧ (tag ++ rest).dropWhile isWord = rest := by
+      rcases hr with hr | ⟨r, hr⟩
+      · subst hr
+        simpa using takeWhile_all isWord tag hw
+      · subst hr
+        exact takeWhile_append_stop isWord tag '[' r hw hnw
+    unfold parseTag
+    rw [hsplit.1, hsplit.2]
+    cases tag with
+    | nil => exact absurd rfl hne
+    | cons c t => rfl
+
+/-- the step parser inverts rendering on the grammar -/
+theorem parseStep_render (st : Step) (h : WfStep st) : parseStep (renderStepE st) = some st := by
+  obtain ⟨ht, hc⟩ := h
+  unfold parseStep renderStepE
+  rw [parseTag_render st.tag _ ht (renderIdxCond_rest st.idx st.cond)]
+  simp only [parseIdx_render, parseCond_render st.cond hc]
+
+theorem renderStepE_ne_dotdot (st : Step) (h : WfStep st) : renderStepE st ≠ dotdot := by
+  intro e
+  have h1 := parseStep_render st h
+  have hd : parseStep dotdot = none := by decide
+  rw [e, hd] at h1
+  cases h1
+
+theorem parseTok_render (t : Tok) (h : WfTok t) : parseTok (renderTok t) = some t := by
+  cases t with
+  | none => simp [renderTok, parseTok]
+  | some st =>
+    simp only [renderTok, parseTok, renderStepE_ne_dotdot st h, if_false, parseStep_render st h]
+    rfl
+
+theorem isWord_noSlashBr (c : Char) (h : isWord c = true) : c ≠ '/' ∧ c ≠ '[' := by
+  constructor <;> (intro e; subst e; revert h; decide)
+
+theorem stepOK_renderTok (t : Tok) (h : WfTok t) : StepOK (renderTok t) := by
+  cases t with
+  | none => exact ⟨by decide, by decide, by decide⟩
+  | some st =>
+    obtain ⟨ht, hc⟩ := h
+    have htag : (∀ c ∈ st.tag, c ≠ '/') ∧ st.tag ≠ [] ∧ st.tag.head? ≠ some '[' := by
+      rcases ht with ht | ht | ⟨hne, hw⟩
+      · rw [ht]; exact ⟨by decide, by decide, by decide⟩
+      · rw [ht]; exact ⟨by decide, by decide, by decide⟩
+      · refine ⟨fun c hc => (isWord_noSlashBr c (hw c hc)).1, hne, ?_⟩
+        cases htg : st.tag with
+        | nil => exact absurd htg hne
+        | cons c t =>
+          have := (isWord_noSlashBr c (hw c (by rw [htg]; simp))).2
+          simpa using this
+    have hidx : ∀ c ∈ renderIdx st.idx, c ≠ '/' := by
+      cases st.idx with
+      | none => intro c hc; cases hc
+      | some j =>
+        cases j with
+        | none => decide
+        | some k =>
+          intro c hc
+          simp only [renderIdx, List.mem_cons, List.mem_append, List.not_mem_nil, or_false] at hc
+          rcases hc with hc | hc | hc
+          · subst hc; decide
+          · exact dec_noSlash k c hc
+          · subst hc; decide
+    have hcond : ∀ c ∈ renderCond st.cond, c ≠ '/' := by
+      cases hcd : st.cond with
+      | none => intro c hc; cases hc
+      | some ov =>
+        obtain ⟨op, v⟩ := ov
+        rw [hcd] at hc
+        obtain ⟨hop, _, hv, _⟩ := hc
+        intro c hcm
+        simp only [renderCond, List.mem_append, List.mem_cons, List.not_mem_nil, or_false] at hcm
+        rcases hcm with ((hcm | hcm) | hcm) | hcm
+        · rcases hcm with e | e | e | e | e | e | e <;> (subst e; decide)
+        · rcases hop with e | e <;> subst e
+          · simp [opEq] at hcm; subst hcm; decide
+          · simp [opNe] at hcm; rcases hcm with e | e <;> (subst e; decide)
+        · exact (hv c hcm).2
+        · subst hcm; decide
+    refine ⟨?_, ?_, ?_⟩
+    · intro c hcm
+      simp only [renderTok, renderStepE, List.mem_append] at hcm
+      rcases hcm with hcm | hcm | hcm
+      · exact htag.1 c hcm
+      · exact hidx c hcm
+      · exact hcond c hcm
+    · simp [renderTok, renderStepE, htag.2.1]
+    · cases htg : st.tag with
+      | nil => exact absurd htg htag.2.1
+      | cons c t =>
+        have := htag.2.2
+        rw [htg] at this
+        simpa [renderTok, renderStepE, htg] using this
+
+theorem splitAux_noSep (sep : Str) (n : Nat) : ∀ (s : Str) (f : Nat) (cur : Str), s.length < f →
+    isInfix sep s = false → splitAux sep n f cur s = [cur.reverse ++ s] := by
+  intro s
+  induction s with
+  | nil =>
+    intro f cur hf _
+    cases f with
+    | zero => omega
+    | succ f => simp [splitAux]
+  | cons c s ih =>
+    intro f cur hf hin
+    cases f with
+    | zero => omega
+    | succ f =>
+      simp only [isInfix, Bool.or_eq_false_iff] at hin
+      rw [splitAux]
+      simp only [hin.1, Bool.false_eq_true, if_false]
+      rw [ih f (c :: cur) (by simp at hf; omega) hin.2]
+      simp
+
+theorem replace_noop (old new s : Str) (h : isInfix old s = false) : replace old new s = s := by
+  unfold replace split
+  rw [splitAux_noSep old _ s _ [] (Nat.lt_succ_self _) h]
+  simp [join]
+
+/-- without a `**/**` in it the normalisation loop leaves the expression alone -/
+theorem normStars_noop (n : Nat) (s : Str) (h : isInfix starsPat s = false) : normStars n s = s := by
+  cases n with
+  | zero => rfl
+  | succ n => simp [normStars, replace_noop starsPat star2 s h]
+
+/-- **the expression split inverts rendering** (grammar tokens, no `**/**` in the text) -/
+theorem xpSteps_render (e : List Tok) (hne : e ≠ []) (hwf : ∀ t ∈ e, WfTok t)
+    (hN : isInfix starsPat (renderExpr e) = false) : xpSteps (renderExpr e) = e.map renderTok := by
+  unfold xpSteps
+  rw [normStars_noop _ _ hN]
+  unfold renderExpr
+  apply splitPath_join
+  · simpa using hne
+  · intro s hs
+    obtain ⟨t, ht, rfl⟩ := List.mem_map.1 hs
+    exact stepOK_renderTok t (hwf t ht)
+
+theorem mapM_parseTok (e : List Tok) (hwf : ∀ t ∈ e, WfTok t) :
+    (e.map renderTok).mapM parseTok = some e := by
+  induction e with
+  | nil => rfl
+  | cons t e ih =>
+    have h1 := parseTok_render t (hwf t (by simp))
+    have h2 := ih (fun x hx => hwf x (by simp [hx]))
+    simp [List.mapM_cons, h1, h2]
+
+/-- **parse ∘ render = id** on the grammar of the property -/
+theorem parseExpr_renderExpr (e : List Tok) (hne : e ≠ []) (hwf : ∀ t ∈ e, WfTok t)
+    (hN : isInfix starsPat (renderExpr e) = false) : parseExpr (renderExpr e) = some e := by
+  unfold parseExpr
+  rw [xpSteps_render e hne hwf hN]
+  exact mapM_parseTok e hwf
